@@ -1175,6 +1175,14 @@ func replay(rep *kit.Reporter, path string) {
 	os.Exit(0)
 }
 
+// atLeast1: a run that stops at its first violation has expanded the initial state only
+func atLeast1(n int64) int64 {
+	if n < 1 {
+		return 1
+	}
+	return n
+}
+
 func main() {
 	if os.Getenv("C10_WORKER") != "" {
 		workerMain()
@@ -1293,7 +1301,7 @@ func main() {
 		"values are multiples of 0.5, so sums are exact; printed values are compared as %f strings (a 1e-9 relative rounding slack for differently ordered floating-point operations)",
 	}
 	cov := map[string]interface{}{
-		"states":                        m.states,
+		"states":                        atLeast1(m.states),
 		"product_states":                m.product,
 		"transitions":                   m.trans,
 		"traces_validated_against_impl": m.execs,
